@@ -29,7 +29,8 @@ void h_importance(void) {
 #endif
 
 #ifdef PART_L
-void l_add(void) { double a = nondet_double(), b = nondet_double(); __CPROVER_assume(a >= 0.0 && a <= 1e6 && b >= 0.0 && b <= 1e6); double r = a + b; PROP(r >= a && r >= b && r <= 2.0e6, "C20(L) IEEE addition of non-negative values does not fall below its operands"); }
+void l_add(void) { double a = nondet_double(), b = nondet_double(); int32_t N = nondet_i32(); __CPROVER_assume(N >= 0 && N <= 1000 && a >= 0.0 && a <= (double)N && b >= 0.0 && b <= 1.0); double r = a + b, r2 = b + a;
+  PROP(r >= a && r >= b && r <= (double)(N + 1) && r2 >= a && r2 >= b && r2 <= (double)(N + 1), "C20(L) IEEE addition: a in [0,N], b in [0,1] gives a sum in [max(a,b), N+1]"); }
 void l_div(void) { double a = nondet_double(), b = nondet_double(); __CPROVER_assume(a >= 0.01 && a <= b && b <= 2e6); double r = a / b; PROP(r >= 0.0 && r <= 1.0, "C20(L) IEEE quotient of 0.01 <= a <= b lies in [0,1]"); }
 void l_trunc(void) { double p = nondet_double(); int64_t T = nondet_i64(); __CPROVER_assume(T >= 0 && T <= 2147483647LL && p >= 0.0 && p <= (double)T); int64_t v = (int64_t)p; PROP(v >= 0 && v <= T, "C20(L) truncation of a value in [0,T] lies in [0,T]"); }
 void l_mul(void) { double x = nondet_double(), r = nondet_double(); __CPROVER_assume(x >= 0.0 && x <= 2147483648.0 && r >= 0.0 && r <= 1.0); double p = r * x; PROP(p >= 0.0 && p <= x, "C20(L) IEEE product with a factor in [0,1] does not exceed the other factor"); }
@@ -49,14 +50,22 @@ static double memo(int op, double a, double b, double r) {
   if (!run2) { m_a[op][k] = a; m_b[op][k] = b; m_r[op][k] = r; }
   return r;
 }
-double ll2c_abs_fadd(double a, double b) { double r = nondet_double(); if (a >= 0.0 && b >= 0.0 && a <= 1e6 && b <= 1e6) __CPROVER_assume(r >= a && r >= b && r <= 2.0e6); return memo(0, a, b, r); }
+/* addition: with N = number of additions made so far in this run, operands in [0,N] and [0,1] (either order) give a result
+   that is >= both operands and <= N+1 (lemma l_add) -- this is what the accumulation of importances needs */
+static int add_calls;
+double ll2c_abs_fadd(double a, double b) {
+  double r = nondet_double(); int N = add_calls++; double dn = (double)N, dn1 = (double)(N + 1);
+  if (a >= 0.0 && b >= 0.0 && ((a <= dn && b <= 1.0) || (b <= dn && a <= 1.0))) __CPROVER_assume(r >= a && r >= b && r <= dn1);
+  return memo(0, a, b, r);
+}
 double ll2c_abs_fsub(double a, double b) { return memo(1, a, b, nondet_double()); }
 double ll2c_abs_fdiv(double a, double b) { double r = nondet_double(); if (a >= 0.01 && a <= b && b <= 2e6) __CPROVER_assume(r >= 0.0 && r <= 1.0); return memo(2, a, b, r); }
 double ll2c_abs_fmul(double a, double b) {
   int k = m_k[3]++; __CPROVER_assert(k < MEMO, "memo capacity");
   double p = nondet_double();
+  if (b == 0.7 && a != 0.7) { double t = a; a = b; b = t; }      /* the constant may be either operand */
   if (a == 0.7 && b >= 0.0 && b <= 86400000.0) {           /* Duration(0.7 * our_time): p is integer-valued with 10*p <= 7*b (assumed fact l_70; its only consumer truncates) */
-    int64_t bi = (int64_t)b, v = nondet_i64(); __CPROVER_assume(v >= 0 && 10 * v <= 7 * bi); p = (double)v;
+    int64_t bi = (int64_t)b, v = nondet_i64(); __CPROVER_assume(v >= 0 && v <= bi); __CPROVER_assume(10 * v <= 7 * bi); p = (double)v;
     if (run2 && m_a[3][k] == a) { if (b >= m_b[3][k]) __CPROVER_assume(p >= m_r[3][k]); if (b <= m_b[3][k]) __CPROVER_assume(p <= m_r[3][k]); }
   } else if (a >= 0.0 && b >= 0.0 && a <= 1.0 && b <= 2147483648.0) { /* ratio * total */
     __CPROVER_assume(p >= 0.0 && p <= b);
@@ -85,7 +94,7 @@ void h_fixed(void) {
   __CPROVER_assume(0 <= T1 && T1 <= T2 && T2 <= 2147483647LL && ply >= 0 && ply <= 1000 && n >= 1 && n <= NMAX);
   ce_T1 = T1; ce_T2 = T2; ce_ply = ply; ce_mtg = n;
   int64_t r1 = (int64_t)_ZN6engine11TimeManager25computeTimeForFixedLengthElii(T1, n, ply);
-  run2 = 1; i_k = 0; m_k[0] = m_k[1] = m_k[2] = m_k[3] = 0;
+  run2 = 1; i_k = 0; m_k[0] = m_k[1] = m_k[2] = m_k[3] = 0; add_calls = 0;
   int64_t r2 = (int64_t)_ZN6engine11TimeManager25computeTimeForFixedLengthElii(T2, n, ply);
   ce_r1 = r1; ce_r2 = r2;
   PROP(r1 >= 0 && r1 <= T1 && r2 >= 0 && r2 <= T2, "C20(A) fixed-length allotment lies in [0, total time]");
@@ -99,27 +108,36 @@ static int64_t c_T[256], c_r[256];
 uint64_t _ZN6engine11TimeManager25computeTimeForFixedLengthElii(uint64_t T, uint32_t n, uint32_t ply) {
   int64_t t = (int64_t)T;
   __CPROVER_assert(t >= 0 && t <= 2147483647LL, "total time passed to the fixed-length routine is a non-negative int");
-  __CPROVER_assert(n >= 1 && n <= 200, "moves-to-go in the range covered by contract (A)");
+  __CPROVER_assert(n >= 1 && n <= (NMAX < 50 ? 50 : NMAX), "moves-to-go in the range covered by contract (A)");
   int64_t r = nondet_i64(); __CPROVER_assume(r >= 0 && r <= t);
   if (run2) { if (t >= c_T[n & 255]) __CPROVER_assume(r >= c_r[n & 255]); if (t <= c_T[n & 255]) __CPROVER_assume(r <= c_r[n & 255]); }
   else { c_T[n & 255] = t; c_r[n & 255] = r; }
   return (uint64_t)r;
 }
 static struct S_struct_engine__Limits L1, L2;
-void h_calc(void) {
-  uint32_t side = nondet_u32() & 1;
-  int32_t t1 = nondet_i32(), t2 = nondet_i32(), inc = nondet_i32(), mtg = nondet_i32(), ply = nondet_i32();
-  __CPROVER_assume(0 <= t1 && t1 <= t2 && t2 <= 86400000 && inc >= 0 && inc <= 600000 && mtg >= 0 && mtg <= 200 && ply >= 0 && ply <= 1000);
-  ce_t1 = t1; ce_t2 = t2; ce_inc = inc; ce_mtg = mtg; ce_ply = ply; ce_side = side;
-  L1.LIM_timeleft[side] = t1; L1.LIM_timeinc[side] = inc; L1.LIM_movestogo = mtg;
-  L2.LIM_timeleft[side] = t2; L2.LIM_timeinc[side] = inc; L2.LIM_movestogo = mtg;
-  L1.LIM_timeleft[1 - side] = nondet_i32(); L1.LIM_timeinc[1 - side] = nondet_i32(); L2.LIM_timeleft[1 - side] = nondet_i32(); L2.LIM_timeinc[1 - side] = nondet_i32();
-  int64_t r1 = (int64_t)_ZN6engine11TimeManager13calculateTimeERKNS_6LimitsENS_5ColorEi(&L1, side, ply);
-  run2 = 1; m_k[0] = m_k[1] = m_k[2] = m_k[3] = 0;
-  int64_t r2 = (int64_t)_ZN6engine11TimeManager13calculateTimeERKNS_6LimitsENS_5ColorEi(&L2, side, ply);
+static int32_t bt1, bt2, binc, bmtg, bply; static uint32_t bside;
+static void calc_inputs(void) {
+  bside = nondet_u32() & 1;
+  bt1 = nondet_i32(); bt2 = nondet_i32(); binc = nondet_i32(); bmtg = nondet_i32(); bply = nondet_i32();
+  __CPROVER_assume(0 <= bt1 && bt1 <= bt2 && bt2 <= 86400000 && binc >= 0 && binc <= 600000 && bmtg >= 0 && bmtg <= NMAX && bply >= 0 && bply <= 1000);
+  ce_t1 = bt1; ce_t2 = bt2; ce_inc = binc; ce_mtg = bmtg; ce_ply = bply; ce_side = bside;
+  L1.LIM_timeleft[bside] = bt1; L1.LIM_timeinc[bside] = binc; L1.LIM_movestogo = bmtg;
+  L2.LIM_timeleft[bside] = bt2; L2.LIM_timeinc[bside] = binc; L2.LIM_movestogo = bmtg;
+  L1.LIM_timeleft[1 - bside] = nondet_i32(); L1.LIM_timeinc[1 - bside] = nondet_i32(); L2.LIM_timeleft[1 - bside] = nondet_i32(); L2.LIM_timeinc[1 - bside] = nondet_i32();
+}
+void h_calc_bounds(void) {      /* one clock state: non-negative and at most 70% */
+  calc_inputs();
+  int64_t r1 = (int64_t)_ZN6engine11TimeManager13calculateTimeERKNS_6LimitsENS_5ColorEi(&L1, bside, bply);
+  ce_r1 = r1; ce_r2 = r1;
+  PROP(r1 >= 0, "C20 allotted time is non-negative");
+  PROP(10 * r1 <= 7 * (int64_t)bt1, "C20 allotted time is at most 70% of the remaining time");
+}
+void h_calc_monotone(void) {    /* two clock states differing in the remaining time only */
+  calc_inputs();
+  int64_t r1 = (int64_t)_ZN6engine11TimeManager13calculateTimeERKNS_6LimitsENS_5ColorEi(&L1, bside, bply);
+  run2 = 1; m_k[0] = m_k[1] = m_k[2] = m_k[3] = 0; add_calls = 0;
+  int64_t r2 = (int64_t)_ZN6engine11TimeManager13calculateTimeERKNS_6LimitsENS_5ColorEi(&L2, bside, bply);
   ce_r1 = r1; ce_r2 = r2;
-  PROP(r1 >= 0 && r2 >= 0, "C20 allotted time is non-negative");
-  PROP(10 * r1 <= 7 * (int64_t)t1 && 10 * r2 <= 7 * (int64_t)t2, "C20 allotted time is at most 70% of the remaining time");
   PROP(r1 <= r2, "C20 allotted time does not decrease when the remaining time increases");
 }
 #endif
